@@ -435,3 +435,7 @@ mod tests {
         assert!(!Predicate::IEndsWithAscii("xhaystack").evaluate("haystack"));
     }
 }
+
+#[cfg(kani)]
+#[path = "/verif/kani/arrow-string/predicate.rs"]
+mod verif_kani;
